@@ -12,39 +12,41 @@ HEADER = V.HEADER + """From CP Require Import Model.History Model.Writer Model.D
 Definition obs := (list (option err) * option text * option err)%type.   (* per call, stream text, close verdict *)
 (* one call of the Writer: write_row(row) or write_rows(rows), which stops at the first rejected row *)
 Inductive wop := WRow (r : list text) | WRows (rs : list (list text)).
-Fixpoint rows_call (c : cid cstate) (w : wstate cstate) (rs : list (list text)) : wstate cstate * option err :=
+Fixpoint rows_call (enc : N -> bool) (c : cid cstate) (w : wstate cstate) (rs : list (list text)) : wstate cstate * option err :=
   match rs with
   | [] => (w, None)
-  | r :: t => let '(w', e, _) := write_row c w r in
-              match e with Some x => (w', Some x) | None => rows_call c w' t end
+  | r :: t => let '(w', e, _) := write_row_enc enc c w r in
+              match e with Some x => (w', Some x) | None => rows_call enc c w' t end
   end.
-Fixpoint ops_all (c : cid cstate) (w : wstate cstate) (ops : list wop) : wstate cstate * list (option err) :=
+Fixpoint ops_all (enc : N -> bool) (c : cid cstate) (w : wstate cstate) (ops : list wop) : wstate cstate * list (option err) :=
   match ops with
   | [] => (w, [])
   | op :: rest =>
       let '(w', e) := match op with
-                      | WRow r => let '(a, b, _) := write_row c w r in (a, b)
-                      | WRows rs => rows_call c w rs
+                      | WRow r => let '(a, b, _) := write_row_enc enc c w r in (a, b)
+                      | WRows rs => rows_call enc c w rs
                       end in
-      let '(wf, es) := ops_all c w' rest in (wf, e :: es)
+      let '(wf, es) := ops_all enc c w' rest in (wf, e :: es)
   end.
-Definition run (i : cid cstate * bool * list nat * text * list wop) : obs :=
-  let '(c, fixed, ws, sep, rows) := i in
-  let '(wf, es) := ops_all c (writer_init c []) rows in
+(* the target: a text stream that takes every character, or one encoded in ASCII *)
+Definition run (i : cid cstate * bool * list nat * text * list wop * bool) : obs :=
+  let '(c, fixed, ws, sep, rows, ascii) := i in
+  let enc := if ascii then (fun ch : N => N.ltb ch 128) else (fun _ : N => true) in
+  let '(wf, es) := ops_all enc c (writer_init c []) rows in
   let text := if fixed then Some (fixed_text ws sep (Validio.w_rows wf))
               else delimited_text (as_delimited_keywords 44 34 34 false) (Validio.w_rows wf) in
   let '(_, ce, _) := writer_close c wf in (es, text, ce).
 Definition obs_eqb (a b : obs) : bool :=
   let '(e, t, c) := a in let '(e', t', c') := b in
   list_eqb (option_eqb err_eqb) e e' && option_eqb text_eqb t t' && option_eqb err_eqb c c'."""
-CASE_TYPE = "(cid cstate * bool * list nat * text * list wop) * obs"
+CASE_TYPE = "(cid cstate * bool * list nat * text * list wop * bool) * obs"
 MODEL = "run"
 EQB = "obs_eqb"
 SHARD = 250
 RULE = ("sequences of 0..8 rows written by write_row calls or - half of the cases - by a random split into write_row and "
         "write_rows calls (a write_rows call stops at its first rejected row; calls after a rejection continue the file), mixing accepted rows, field errors, wrong item counts and duplicates x "
         "delimited and fixed CIDs (Text/Choice fields, lengths, allowed characters; line delimiter lf/cr/crlf/any/none "
-        "for fixed) x header 0..1 x IsUnique / DistinctCount checks; observed: outcome of every call, the final stream "
+        "for fixed) x header 0..1 x target {text stream, stream encoded in ASCII with rows carrying a character it cannot represent} x IsUnique / DistinctCount checks; observed: outcome of every call, the final stream "
         "text, the close verdict; the produced text is then read back under a freshly loaded copy of the CID and must "
         "yield exactly the accepted rows (modulo padding) without a rejection. Non-trivial: at least one accepted and "
         "one rejected call. Distinct = distinct (CID, rows).")
@@ -57,7 +59,8 @@ SEP = {"lf": "\n", "cr": "\r", "crlf": "\r\n", "any": "\n", None: "\n", "none": 
 def make_case(inp):
     spec, rows = inp["spec"], inp["rows"]
     cid = V.build_cid(spec)
-    target = io.StringIO(newline="")
+    ascii_target = bool(inp.get("ascii"))
+    target = io.TextIOWrapper(io.BytesIO(), encoding="ascii", newline="") if ascii_target else io.StringIO(newline="")
     writer = validio.Writer(cid, target)
     writes = []
     ops = inp.get("ops") or [["row", r] for r in rows]
@@ -70,7 +73,11 @@ def make_case(inp):
             writes.append(None)
         except Exception as e:  # noqa
             writes.append(V.canon_error(e, spec))
-    text = target.getvalue()
+    if ascii_target:
+        target.flush()
+        text = target.buffer.getvalue().decode("ascii")
+    else:
+        text = target.getvalue()
     closed = None
     try:
         writer.close()
@@ -81,10 +88,10 @@ def make_case(inp):
     sep = SEP[spec.get("line_delimiter")] if fixed else ""
     obs = {"writes": writes, "text": text, "close": closed}
     coq_ops = L(ops, lambda o: "(WRow %s)" % L(o[1], S) if o[0] == "row" else "(WRows %s)" % L(o[1], lambda r: L(r, S)))
-    coq_in = P(V.coq_cid(spec), B(fixed), L(ws, Nat), S(sep), coq_ops)
+    coq_in = P(V.coq_cid(spec), B(fixed), L(ws, Nat), S(sep), coq_ops, B(ascii_target))
     coq_obs = P(L(writes, lambda e: O(e, V.coq_err)), "(Some %s)" % S(text), O(closed, V.coq_err))
     n_ok = sum(1 for w in writes if w is None)
-    tags = [spec["format"], "header%d" % spec.get("header", 0)] + (["ld-" + str(spec.get("line_delimiter"))] if fixed else [])
+    tags = [spec["format"], "header%d" % spec.get("header", 0)] + (["ascii-target"] if ascii_target else []) + (["ld-" + str(spec.get("line_delimiter"))] if fixed else [])
     return {"coq": P(coq_in, coq_obs), "obs": obs, "nontrivial": 0 < n_ok < len(writes), "tags": tags}
 
 
@@ -150,6 +157,15 @@ def gen_inputs(tier, rnd):
                     row = list(rnd.choice(rows[spec["header"]:] or [row]))
             rows.append(row)
         case = {"spec": spec, "rows": rows}
+        if rnd.random() < 0.25:
+            # the target is a stream encoded in ASCII; some rows carry a character it cannot represent, mostly not in
+            # the first item: such a row is refused as a whole
+            case["ascii"] = True
+            for i in range(spec["header"], len(rows)):
+                if rows[i] and rnd.random() < 0.4:
+                    j = rnd.randrange(1, len(rows[i])) if len(rows[i]) > 1 and rnd.random() < 0.8 else rnd.randrange(len(rows[i]))
+                    rows[i] = list(rows[i])
+                    rows[i][j] = (rows[i][j][:-1] if rows[i][j] else "") + rnd.choice(["ä", "€", "ÿ"])
         if rnd.random() < 0.5 and rows:
             ops, i = [], 0
             while i < len(rows):
